@@ -105,6 +105,7 @@ quantiles_sketch<T, C, A>& quantiles_sketch<T, C, A>::operator=(const quantiles_
 template<typename T, typename C, typename A>
 quantiles_sketch<T, C, A>& quantiles_sketch<T, C, A>::operator=(quantiles_sketch&& other) noexcept {
   reset_sorted_view(); // release the cached view through the allocator that allocated it
+  other.reset_sorted_view(); // the source receives this object's state and allocator: its view would be stale and foreign
   std::swap(comparator_, other.comparator_);
   std::swap(allocator_, other.allocator_);
   std::swap(is_base_buffer_sorted_, other.is_base_buffer_sorted_);
